@@ -207,6 +207,29 @@ pub fn run_conv(op: &str, a: &[Arg], st: &mut Stats) -> Option<Out> {
                 .with_oracle(o == want, "digest order differs from the order of the big-integer values")
                 .with_oracle(d1.partial_cmp(&d2) == Some(o) && (d1 < d2) == (o == std::cmp::Ordering::Less), "partial_cmp inconsistent")
         }
+        ("d_reversed", [x]) => {
+            let d = arg_digest(x)?;
+            let r = d.reversed();
+            let v = d.values();
+            Out::ok(format!("ok:{}", fmt_digest(&r)))
+                .with_oracle((0..5).all(|i| r.values()[i] == v[4 - i]), "reversed: element i is not element 4-i")
+                .with_oracle(r.reversed() == d, "reversed is not an involution")
+        }
+        ("d_default", []) => {
+            let d = Digest::default();
+            Out::ok(format!("ok:{}", fmt_digest(&d)))
+                .with_oracle(d.values().iter().all(|e| e.value() == 0 && e.raw_u64() == 0), "default digest is not all-zero")
+                .with_oracle(BigUint::from(d).is_zero(), "default digest is not the least digest")
+        }
+        ("d_to_vec", [x]) => {
+            let d = arg_digest(x)?;
+            let v: Vec<BFieldElement> = d.into();
+            Out::ok(format!("ok:{}", fmt_bfes(&v)))
+                .with_oracle(v.len() == Digest::LEN && v == d.values().to_vec() && Digest::new(d.values()) == d, "Vec / values / new disagree")
+                .with_oracle(Digest::try_from(v.clone()).ok() == Some(d), "Vec round trip")
+        }
+        ("d_consts", []) => Out::ok(format!("ok:[{},{}]", Digest::LEN, Digest::BYTES))
+            .with_oracle(Digest::BYTES == 40 && Digest::LEN == 5 && std::mem::size_of::<Digest>() == 40, "Digest::LEN / BYTES"),
         ("bfe_to_bytes", [v]) => {
             let e = BFieldElement::new(v.u64()?);
             let b: [u8; 8] = e.into();
@@ -407,6 +430,18 @@ pub fn gen(rng: &mut Rng, thorough: bool, out: &mut Vec<String>) {
                 }
             }
         }
+    }
+    // accessors / constructors (C20 audit)
+    out.push("conv d_default".into());
+    out.push("conv d_consts".into());
+    for words in [[0u64, 0, 0, 0, 0], [1, 2, 3, 4, 5], [P - 1, 0, 0, 0, 0], [0, 0, 0, 0, P - 1], [P - 1, P - 2, P - 3, 1, 0], [7, 7, 7, 7, 7]] {
+        out.push(format!("conv d_reversed {}", f(&words)));
+        out.push(format!("conv d_to_vec {}", f(&words)));
+    }
+    for _ in 0..(if thorough { 400 } else { 40 }) {
+        let d = rng.digest();
+        let w: Vec<u64> = d.values().iter().map(|e| e.value()).collect();
+        out.push(format!("conv {} {}", if rng.coin(1, 2) { "d_reversed" } else { "d_to_vec" }, f(&w)));
     }
     // big integers around p^5 and p^k
     let p = BigUint::from(P);
